@@ -113,3 +113,79 @@ MANIFEST_TEXT["C13"] = {
     "text": "For every table shape within the bounds and every zero pattern of the probabilities the solver shows that the ExactSizeIterator lengths equal the number of items subsequently yielded at every prefix, that every infoset appears exactly once in order with exactly its positive-probability actions (bit-identical probabilities; single-action infosets at 1.0), and that importing the view returns the same profile. Bounded: <= 2 multi-action + 2 single-action infosets per player, <= 3 actions.",
     "note": "Kani/CBMC trusted. from_named (hash-based) is covered under C14 via the map model; solver output / truncated profiles are covered as 'any probabilities in [0,1]'.",
 }
+
+# ---------------------------------------------------------------------------------------------
+DATA = "solve::data::verif_kani"
+_EXP = ("f64::exp -> contract model: deterministic uninterpreted function; exp(0)=1, [0,1] below 0, >=1 above, monotone, "
+        "finite up to 709, +inf from 710, 0 below -746, positive above -700")
+_POWREC = "f64::powf -> records (base, exponent) and returns one fixed weight q/8 in (0,1]"
+
+K_CUM = [
+    H("c02_cum_regret_structure_full", f"{DATA}::kernels", "quick", functions=["RegretParams::cum_regret"],
+      bounds="3 regrets any non-NaN f64 (incl. +-inf), iteration any u64 >= 1",
+      role="per-infoset bound is never NaN/negative, is 0 iff no positive regret (positive when some regret >= 1e-200, t < 2^40)"),
+    H("c02_cum_regret_value_ints", f"{DATA}::kernels", "quick", functions=["RegretParams::cum_regret"],
+      bounds="3 (and 2) regrets integers in [-8,8], iteration 1..=100", role="per-infoset bound == 2*max(R,0)/t (1e-12)"),
+]
+K_DISCOUNT = [
+    H("c08_gen_discount_special", f"{DATA}::kernels", "quick", functions=["RegretParams::gen_discount"],
+      bounds="iteration any u64; exponents -inf, 0, -0, +inf", role="discount factor exactly 0, 1/2, 1"),
+    H("c08_discount_regret_special", f"{DATA}::kernels", "quick", functions=["RegretParams::discount_cum_regret", "RegretParams::gen_discount"],
+      bounds="3 regrets any finite f64; (alpha,beta) in {-inf,0,+inf}^2; iteration any u64",
+      role="positive regrets scaled by the alpha factor, negative by the beta factor, zeros untouched"),
+    H("c08_discount_average_strat", f"{DATA}::kernels", "quick", functions=["RegretParams::discount_average_strat"], stubs=[_POWREC], playback=True,
+      bounds="gamma any finite f64 >= 0; iteration 1..=64; 2 entries k/4 in [0,4]",
+      role="gamma 0 is the identity; gamma > 0 scales every entry by the same (t/(t+1))^gamma (base and exponent of the powf call checked)"),
+    H("c08_presets", f"{DATA}::kernels", "quick", functions=["RegretParams::{vanilla,lcfr,cfr_plus,dcfr,dcfr_prune,default}"],
+      bounds="constants", role="presets and Default equal the documented tuples"),
+    H("c05_params_new_accepts", f"{DATA}::kernels", "quick", functions=["RegretParams::new"],
+      bounds="all f64 4-tuples satisfying the documented precondition", role="constructor accepts and stores (alpha,beta,gamma,weight)"),
+]
+K_MATCH = [
+    H("c08_regret_match_positive_ints", f"{DATA}::rmatch", "quick", functions=["RegretParams::regret_match::<[f64; 3]>"],
+      bounds="3 integer regrets in [-8,8], some positive; fallback weight in {+inf,-inf,0,1}", role="strategy == R+/sum(R+) (1e-12); regrets untouched"),
+    H("c08_regret_match_positive_ints_atomic", f"{DATA}::rmatch", "quick", functions=["RegretParams::regret_match::<[AtomicF64]>"],
+      bounds="2 integer regrets in [-8,8], some positive", role="same on the atomic accumulators of the multi-threaded solvers"),
+    H("c05_regret_match_fallback_full", f"{DATA}::rmatch", "quick", functions=["RegretParams::regret_match::<[f64; 3]>"],
+      bounds="3 regrets any f64 in [-1e300,0] (ties, -0.0); weight in {+inf,-inf,0}",
+      role="no panic in partial_cmp().unwrap(); indicator of a best / worst action, or uniform"),
+    H("c05_regret_match_softmax", f"{DATA}::rmatch", "quick", functions=["RegretParams::regret_match::<[f64; 2]>"], stubs=[_EXP], playback=True,
+      bounds="2 non-positive integer regrets >= -8; weight in +-{1/4,1,100,1000}", role="softmax fallback: no NaN, entries in [0,1], some positive"),
+    H("c08_regret_match_softmax_order", f"{DATA}::rmatch", "quick", functions=["RegretParams::regret_match::<[f64; 2]>"], stubs=[_EXP], playback=True,
+      bounds="as above", role="softmax probabilities ordered like weight*regret; equal regrets equal probabilities"),
+    H("c05_regret_match_positive_full2", f"{DATA}::rmatch", "thorough", functions=["RegretParams::regret_match::<[f64; 2]>"],
+      bounds="2 regrets any f64 in [-1e300,1e300], some positive", role="entries in [0,1], no NaN, zero for non-positive regret, some positive entry"),
+]
+K_AVG = [
+    H("c05_avg_strat_extremes3", f"{DATA}::kernels", "quick", functions=["avg_strat"],
+      bounds="3 entries from {0,5e-324,1e-300,0.1,1,3,1e300}", role="normalised average strategy is a distribution; uniform when nothing accumulated"),
+    H("c05_avg_strat_values", f"{DATA}::kernels", "quick", functions=["avg_strat"],
+      bounds="3 entries k/4, k in 0..=8", role="entry == c_i/sum and total one (1e-12)"),
+    H("c05_avg_strat_full", f"{DATA}::kernels", "thorough", functions=["avg_strat"],
+      bounds="2 entries any f64 in [0,1e300]", role="entries in [0,1], some positive, uniform when nothing accumulated"),
+]
+K_NEWREJ = [
+    H("c05_params_new_rejects", f"{DATA}::kernels", "quick", functions=["RegretParams::new"], expect_fail=["*"],
+      bounds="all f64 4-tuples violating the documented precondition (NaN anywhere, gamma negative/NaN/+inf)", role="constructor panics on every documented-invalid tuple"),
+]
+K_DRAW = [
+    H("c10_sampled_chance_cache", f"{DATA}::draws", "quick", functions=["SampledChance::{new,sample,reset}"],
+      stubs=["H-draw hook: the WeightedAliasIndex/thread_rng draw is replaced by an arbitrary index < 3 that is logged"], playback=False,
+      bounds="3 outcomes; cache state any of 0..=3", role="one draw per pass, cached outcome reused, fresh draw after reset"),
+]
+
+REGISTRY["C05"] = {
+    "level": "model_checking",
+    "explanation": "Bounded model checking of every numerical kernel a solve is made of (regret matching incl. all fallbacks, "
+                   "average-strategy normalisation, parameter constructor), of the single-thread driver loops with abstract bodies "
+                   "(budget 0, bounds finite/non-negative) and of the thread-count arithmetic; whole solve runs are out of reach.",
+    "assumptions": ["regrets and accumulated strategies within +-1e300 (overflow to inf at astronomically large payoffs is outside the claim)",
+                    "rayon pool construction, lock contention, deadlock freedom are outside (Kani is sequential)"],
+    "harnesses": [h for h in K_MATCH if h.name.startswith("c05")] + K_AVG + K_NEWREJ + [K_DISCOUNT[-1]],
+}
+MANIFEST_TEXT["C05"] = {
+    "engine": "kani",
+    "technique": "bounded model checking (Kani/CBMC SAT) of the solver's kernels, driver loops with stubbed bodies, and thread-count arithmetic",
+    "text": "Every kernel that produces strategy entries or bounds is decided total and well-formed for all floats within +-1e300 (ties, -0.0, all-non-positive regrets, nothing accumulated, softmax with exp abstracted by contract), the constructor's panic set is exactly the documented one, a zero budget returns infinite bounds and uniform strategies, and the thread-count overflow is reported as the documented error. Sequential code only.",
+    "note": "Compositional: whole solve runs (23M-variable formulas) are out of reach, so 'never panics' is decided per unit; deadlock/hang, pool errors and lock contention are outside. exp is a contract model.",
+}
